@@ -131,7 +131,11 @@ def run_job(job):
     rng = random.Random(job['seed'])
     fast = job['fast']
     spec = specgen.random_session(rng, minutes=rng.choice([240, 360, 480]), fast=fast, tfs=['1m', '3m', '5m', '15m'],
-                                  data_tfs=['3m', '5m', '15m', '30m', '1h'])
+                                  data_tfs=['3m', '5m', '15m', '30m', '1h'], data_only=(job['i'] % 3 == 1))
+    if job['i'] % 3 == 1:
+        cnt0 = {'sessions_with_data_only_symbol': 1}
+    else:
+        cnt0 = {}
     allc = session.build_candles(spec)
     w = spec['warmup']
     n = len(next(iter(allc.values()))) - w
@@ -140,7 +144,7 @@ def run_job(job):
     A = session.run_session(spec, candles={s: frontier.Guarded(x.copy()) for s, x in allc.items()})
     reads = frontier.end()
     ev = A['events']
-    cnt, viol, sigs = {'base_sessions': 1}, [], []
+    cnt, viol, sigs = dict(cnt0, base_sessions=1), [], []
     cnt['frontier_row_accesses'] = len(reads)
     # ---- choose cuts from A's own trace --------------------------------------------------------
     import math
